@@ -9,7 +9,7 @@
     Fragment: [*], [?], bracket expressions with single members, ranges, [!]/[^] and backslash
     escapes, backslash escapes outside brackets, Literal (quoted) pieces.  Everything else
     (character-class names, the regex crate's set operators inside brackets, backslash before
-    an alphanumeric or non-ASCII character inside brackets, extglob groups, '/') is reported
+    a non-ASCII character inside brackets, extglob groups, '/') is reported
     as unsupported and such cases are dropped by the driver. *)
 From BV Require Import Base.Prelude gen.ExpandGen Expand.Model.
 
@@ -45,7 +45,7 @@ Definition single (s : str) : sres :=
   | c :: r =>
       if N.eqb c BSL then
         match r with
-        | d :: r' => if is_alnum d || (127 <? d)%N then SUnsup else SOk d r'
+        | d :: r' => if (127 <? d)%N then SUnsup else SOk d r'     (* an escaped letter/digit is that character (f7a052e) *)
         | [] => SOk c r
         end
       else if N.eqb c RBR then SNone
@@ -91,12 +91,34 @@ Definition bracket (s : str) : option (option (bool * list (char * char) * str))
                    | c :: r' => if N.eqb c 33 || N.eqb c 94 then (true, r') else (false, s)
                    | [] => (false, s)
                    end in
-  match members (S (length r)) r [] O with
-  | BFail => None
-  | BUnsup => Some None
-  | BOk items rest =>
-      if has_setop (take_n (length r - length rest) r) then Some None
-      else Some (Some (neg, items, rest))
+  (* a `]` directly after the opening bracket (or the inversion character) is an ordinary member,
+     possibly the start of a range (leading_right_bracket, repair 787d8bd) *)
+  let lead : option (list (char * char) * nat * str) :=
+    match r with
+    | c :: r' =>
+        if N.eqb c RBR then
+          match r' with
+          | 45%N :: r2 =>
+              match single r2 with
+              | SOk b r3 => Some ((if (RBR <=? b)%N then [(RBR, b)] else []), 1%nat, r3)
+              | SUnsup => None
+              | SNone => Some ([(RBR, RBR)], 1%nat, r')
+              end
+          | _ => Some ([(RBR, RBR)], 1%nat, r')
+          end
+        else Some ([], O, r)
+    | [] => Some ([], O, r)
+    end in
+  match lead with
+  | None => Some None
+  | Some (acc0, n0, r0) =>
+      match members (S (length r0)) r0 acc0 n0 with
+      | BFail => None
+      | BUnsup => Some None
+      | BOk items rest =>
+          if has_setop (take_n (length r - length rest) r) then Some None
+          else Some (Some (neg, items, rest))
+      end
   end.
 
 (** tokens of a pattern; None = unsupported *)
